@@ -159,7 +159,25 @@ func (in *verifGroupIn) verifGen(m int) int32 {
 	if in.fixedGens || len(in.claims[m]) == 0 {
 		return 1
 	}
+	if !verifThorough() && !in.conflicted(m) {
+		// generations are only compared between claimants of the same partition
+		return 1
+	}
 	return [...]int32{-1, 1, 2}[verifPick(3)]
+}
+
+// conflicted: does member m claim a partition that another member claims too?
+func (in *verifGroupIn) conflicted(m int) bool {
+	for t, ps := range in.claims[m] {
+		for _, p := range ps {
+			for o := 0; o < in.nMembers; o++ {
+				if o != m && in.claimed(o, t, p) {
+					return true
+				}
+			}
+		}
+	}
+	return false
 }
 
 // eager members: claims travel in sticky UserData (v1 with symbolic generation, or v0
